@@ -30,6 +30,8 @@ type Result struct {
 	Obs    []string // one observation string per step
 	Tags   []string // branch tags this case exercised (for the non-triviality count)
 	Oracle []string // "clause\tdetail" for each failed clause of the property oracle
+	Ops    []string // optional: the ops as resolved during the run (observed nondeterministic choices
+	// filled in); written to the cases file instead of the generated ops so the model replays them
 }
 
 // Harness is implemented once per property.
@@ -122,6 +124,9 @@ func main() {
 			}
 			seen[c.ID] = true
 			res := runSafe(h, c)
+			if res.Ops != nil {
+				c.Ops = res.Ops
+			}
 			fmt.Fprintln(cw, c.Line())
 			for s, o := range res.Obs {
 				fmt.Fprintf(ow, "%s\t%d\t%s\n", c.ID, s, o)
